@@ -103,7 +103,7 @@ def main():
             raise vf.ToolError(f"C13: cannot find the generated trait T in the expansion of case {cid}")
         o = {"compiled": d is None, "privacyonly": all(cd in PRIVACY for cd in codes) if d else True, "codes": codes,
              "vistext": vistext, "diag": [x["message"][:100] for x in (d or [])][:2]}
-        events.append({"case": cid, "l1": c["l1"], "obs": o, "pred": c["pred"], "predvis": ("pub(super)" if (i.get("via") == "inmod" and not i["vis"]) else i["vis"]).replace(" ", "").replace("crate::cases::p)", "crate::cases::" + ("cx" if i["loc"] == "other-crate" else "cy" if i["loc"] == "cousin" else "c") + cid + ")"), "cls": ""})
+        events.append({"case": cid, "l1": c["l1"], "obs": o, "pred": c["pred"], "predvis": ("pub(super)" if (i.get("via") == "inmod" and not i["vis"]) else "pub(in super::super)" if (i.get("via") == "inmod" and i["vis"] == "pub(super)") else i["vis"]).replace(" ", "").replace("crate::cases::p)", "crate::cases::" + ("cx" if i["loc"] == "other-crate" else "cy" if i["loc"] == "cousin" else "c") + cid + ")"), "cls": ""})
     bad, drift = vf.validate(chk, "Trace_C13", events)
     byid = {c["case"]: c for c in cases}
     ev = {e["case"]: e for e in events}
